@@ -29,7 +29,7 @@ use tokio::io::{AsyncReadExt, AsyncWriteExt};
 use crate::{
     fakeirrd::FakeIrrd,
     fakejunos::{self, Log, Script},
-    logs::{acceptor_client_auth, build_agent, key_files},
+    logs::{acceptor_client_auth, build_agent, build_agent_profile, key_files},
     memtransport as mt,
     tlsserver::CERT_DIR,
     util::*,
@@ -509,18 +509,82 @@ fn c04(agent: &PathBuf, opts: &Opts, sink: &mut Sink) {
     }
 }
 
+/// C02 with the binary as it SHIPS (release profile): policies installed with ranges that are no
+/// longer evaluated; the loads of the run must delete exactly those route-filters (and the term of a
+/// family that became empty). Everything else in the harness runs dev-profile code, where
+/// `debug_assert!` and overflow checks are active.
+fn c02(agent: &PathBuf, opts: &Opts, sink: &mut Sink) {
+    let _ = opts;
+    for n in [1usize, 3] {
+        let case = format!("c02rel;n={n}");
+        progress(&case);
+        let rt = tokio::runtime::Builder::new_multi_thread().worker_threads(2).enable_all().build().unwrap();
+        let irrd = FakeIrrd::start(std::collections::HashMap::new());
+        let names: Vec<String> = (0..n).map(|i| format!("p{i}")).collect();
+        let script = Script {
+            // evaluated: 10.0.i.0/24^24-28 and 2001:db8:i::/48; installed: 203.0.113.0/25^25-32 and
+            // 2001:db8:ffff::/48^48-64 (fakejunos::installed_with) — both stale
+            running: fakejunos::running_with(n),
+            ephemeral: fakejunos::installed_with(&names),
+            fault: None,
+        };
+        let router = start_router(&rt, Peer::Serve, script);
+        let run = run_agent_oneshot(agent, router.port, irrd.port, Duration::from_secs(30));
+        std::thread::sleep(Duration::from_millis(30));
+        let loads: Vec<String> = router
+            .logs
+            .lock()
+            .unwrap()
+            .first()
+            .map(|l| l.lock().unwrap().loads.clone())
+            .unwrap_or_default();
+        let mut verdict = "ok".to_string();
+        if run.exit != Some(0) {
+            verdict = format!("violation clean-run-fails-exit-{:?}", run.exit);
+        } else {
+            for name in &names {
+                let Some(l) = loads.iter().find(|l| l.contains(&format!("<name>{name}</name>"))) else {
+                    verdict = format!("violation no-update-for-{name}-with-stale-ranges");
+                    break;
+                };
+                // the stale filters must be deleted (a `delete` attribute on a route-filter holding
+                // the stale address), for both families
+                let deletes = |addr: &str| {
+                    l.split("<route-filter").skip(1).any(|rf| {
+                        let head = rf.split('>').next().unwrap_or("");
+                        head.contains("delete") && rf.split("</route-filter>").next().unwrap_or("").contains(addr)
+                    })
+                };
+                if !deletes("203.0.113.0/25") || !deletes("2001:db8:ffff::/48") {
+                    verdict = format!("violation stale-route-filter-of-{name}-not-deleted");
+                    break;
+                }
+            }
+        }
+        if verdict != "ok" {
+            sink.sample(format!("{case} -> exit={:?} loads={} first={}", run.exit, loads.len(), loads.first().map(|l| l.chars().take(600).collect::<String>()).unwrap_or_default()));
+        }
+        sink.direct(&case, verdict);
+        sink.count("c02rel.runs");
+        drop(irrd);
+        rt.shutdown_timeout(Duration::from_millis(100));
+    }
+}
+
 pub fn main(opts: &Opts) {
     let mut sink = Sink::new();
     let fam = opts
         .extra
         .iter()
-        .find(|e| ["c04", "c07", "c15", "c16"].contains(&e.as_str()))
+        .find(|e| ["c02", "c04", "c07", "c15", "c16"].contains(&e.as_str()))
         .cloned()
         .unwrap_or_else(|| "c15".into());
-    match build_agent(&mut sink) {
+    let built = if fam == "c02" { build_agent_profile(&mut sink, true) } else { build_agent(&mut sink) };
+    match built {
         None => sink.direct(&format!("{fam};build"), "violation agent-binary-unavailable".into()),
         Some(agent) => match fam.as_str() {
             "c07" => c07(&agent, opts, &mut sink),
+            "c02" => c02(&agent, opts, &mut sink),
             "c04" => c04(&agent, opts, &mut sink),
             // C16 end to end: which statements of the running configuration get loaded (same runs)
             "c16" => c15(&agent, opts, &mut sink),
